@@ -318,6 +318,15 @@ func (vc *VC) calleeFootprint(fc *FuncContract, comp, av string, env *Env, pre *
 				if !vc.prog.compMatches(pat, comp, pkg) {
 					continue
 				}
+				if mi.CallerFresh {
+					parts = append(parts, sx(">=", sx("rootOf", av), "|alloc@0|"))
+					continue
+				}
+				if mi.After != nil {
+					ob := vc.evalVal(mi.After, env, pre, pre)
+					parts = append(parts, sx("<", sx("rootOf", vc.addrOf(ob)), sx("rootOf", av)))
+					continue
+				}
 				if mi.At == nil {
 					return "true", true
 				}
